@@ -18,11 +18,15 @@ pub struct TagCase {
     pub decimals: u8,
     /// liquidator's own prior positions: number of default-tag deposits it already holds
     pub liquidator_prior: u8,
+    /// Some(k): before step k the liquidator itself is made liquidatable for a moment and a third party seizes the
+    /// WHOLE of one of its integration positions (the balance stays open with zero shares), then it recovers
+    #[serde(default)]
+    pub empty_at: Option<u8>,
 }
 
 pub fn case_strategy() -> impl Strategy<Value = TagCase> {
-    (9u8..=12, prop::collection::vec(prop_oneof![6 => 3u8..=5, 1 => Just(0u8), 1 => Just(1u8), 1 => Just(2u8)], 12), prop::collection::vec(any::<u16>(), 14), prop_oneof![Just(6u8), Just(9u8), 0u8..=9], 0u8..3)
-        .prop_map(|(n_collateral, tags, order, decimals, liquidator_prior)| TagCase { n_collateral, tags, order, decimals, liquidator_prior })
+    (9u8..=12, prop::collection::vec(prop_oneof![6 => 3u8..=5, 1 => Just(0u8), 1 => Just(1u8), 1 => Just(2u8)], 12), prop::collection::vec(any::<u16>(), 14), prop_oneof![Just(6u8), Just(9u8), 0u8..=9], 0u8..3, prop_oneof![1 => Just(None), 2 => (4u8..14).prop_map(Some)])
+        .prop_map(|(n_collateral, tags, order, decimals, liquidator_prior, empty_at)| TagCase { n_collateral, tags, order, decimals, liquidator_prior, empty_at })
 }
 
 #[derive(Default, Debug)]
@@ -32,12 +36,13 @@ pub struct Stats {
     pub refused_at_cap: u64,
     pub max_integration: usize,
     pub mix_refused: u64,
+    pub emptied: u64,
 }
 
 pub fn run_case(c: &TagCase, stats: &mut Stats) -> Result<(), (String, String)> {
     let n = c.n_collateral as usize;
     let mut banks = vec![];
-    for _ in 0..=n {
+    for _ in 0..=(n + 1) {
         let mut b = BankSpec::default();
         b.decimals = c.decimals;
         b.oracle = OracleSpec::fixed(1_000_000, -6);
@@ -50,6 +55,7 @@ pub fn run_case(c: &TagCase, stats: &mut Stats) -> Result<(), (String, String)> 
     let spec = WorldSpec { banks, n_users: 3, program_fees_enabled: false, ..WorldSpec::default() };
     let Ok(mut w) = World::build(&spec) else { return Ok(()) };
     let debt_bank = n;
+    let lq_debt_bank = n + 1;
     let lender = w.users[0].clone();
     let le = w.users[1].clone();
     let lq = w.users[2].clone();
@@ -75,6 +81,13 @@ pub fn run_case(c: &TagCase, stats: &mut Stats) -> Result<(), (String, String)> 
     if w.vm.exec(&ix).is_err() {
         return Ok(());
     }
+    // the liquidator carries a small debt of its own in a further bank (funded by the lender), far from its limit
+    let ix = w.ix_deposit(lender.accts[0], lender.auth, lq_debt_bank, lender.tokens[lq_debt_bank], 1_000_000 * unit, None);
+    let _ = w.vm.exec(&ix);
+    if c.empty_at.is_some() {
+        let ix = w.ix_borrow(lq.accts[0], lq.auth, lq_debt_bank, lq.tokens[lq_debt_bank], 100_000 * unit);
+        let _ = w.vm.exec(&ix);
+    }
     // re-tag the collateral banks through the real admin instruction
     for bi in 0..n {
         let mut o = BankConfigOpt::default();
@@ -89,6 +102,29 @@ pub fn run_case(c: &TagCase, stats: &mut Stats) -> Result<(), (String, String)> 
     stats.built = true;
     // liquidate a little collateral from the banks in the generated order
     for k in 0..c.order.len() {
+        if c.empty_at == Some(k as u8) {
+            // the liquidator's own debt becomes 10x dearer for a moment: a third party (the lender) seizes the whole
+            // of one of its integration positions; the balance stays open with zero shares; then the price returns
+            let acct = w.macct(&lq.accts[0]);
+            let target = acct.lending_account.balances.iter().find(|b| b.active != 0 && is_integration_tag(b.bank_asset_tag)).map(|b| b.bank_pk);
+            if let Some(bk) = target.and_then(|k| w.bank_index(&k)) {
+                let _ = w.set_price(lq_debt_bank, 10_000_000, 0, 10_000_000, 0);
+                let held = {
+                    let b = w.bank(bk);
+                    let bal = acct.lending_account.balances.iter().find(|x| x.active != 0 && x.bank_pk == w.banks[bk].key).unwrap();
+                    let v = fixed::types::I80F48::from(bal.asset_shares) * fixed::types::I80F48::from(b.asset_share_value);
+                    v.to_num::<u64>()
+                };
+                let ix = w.ix_liquidate(lender.accts[0], lender.auth, lq.accts[0], bk, lq_debt_bank, held);
+                if held > 0 && w.vm.exec(&ix).is_ok() {
+                    let after = w.macct(&lq.accts[0]);
+                    if after.lending_account.balances.iter().any(|x| x.active != 0 && x.bank_pk == w.banks[bk].key && fixed::types::I80F48::from(x.asset_shares) < fixed::types::I80F48::from_num(1)) {
+                        stats.emptied += 1;
+                    }
+                }
+                let _ = w.set_price(lq_debt_bank, 1_000_000, 0, 1_000_000, 0);
+            }
+        }
         let bi = idx(c.order[k], n);
         let pre = w.macct(&lq.accts[0]);
         let pre_int = pre.lending_account.balances.iter().filter(|b| b.active != 0 && is_integration_tag(b.bank_asset_tag)).count();
@@ -121,7 +157,7 @@ pub fn run_case(c: &TagCase, stats: &mut Stats) -> Result<(), (String, String)> 
     Ok(())
 }
 
-pub const RULE: &str = "directed: 10-13 fixed-oracle banks; a liquidatee deposits in 9-12 of them and borrows near its limit; the group admin then re-tags those banks through configure_bank(asset_tag) with generated tags (mostly Kamino/Drift/Solend, some default/SOL/staked); the debt price is raised and a funded liquidator seizes one unit from the banks in a generated order (classic liquidation is the only non-venue path that opens integration-tagged positions). After every successful liquidation: <= 8 integration positions, no staked + default-class mix, <= 16 positions. Non-trivial = case in which the liquidator reached 8 integration positions and a further new integration position was refused.";
+pub const RULE: &str = "directed: 11-14 fixed-oracle banks; a liquidatee deposits in 9-12 of them and borrows near its limit; the group admin then re-tags those banks through configure_bank(asset_tag) with generated tags (mostly Kamino/Drift/Solend, some default/SOL/staked); the debt price is raised and a funded liquidator seizes one unit from the banks in a generated order (classic liquidation is the only non-venue path that opens integration-tagged positions). In two thirds of the cases the liquidator also carries a debt of its own and, at a generated step, is made liquidatable for a moment so that a third party seizes the WHOLE of one of its integration positions (the balance stays open with zero shares) before its price recovers. After every successful liquidation: <= 8 integration positions, no staked + default-class mix, <= 16 positions. Non-trivial = case in which the liquidator reached 8 integration positions and a further new integration position was refused.";
 
 pub fn run(ctx: &Ctx) -> Report {
     let cases: u32 = ctx.tier.pick(150, 15_000);
@@ -135,6 +171,7 @@ pub fn run(ctx: &Ctx) -> Report {
                 rep.eval();
                 rep.add_extra("directed_liquidations_ok", st.liquidations_ok);
                 rep.add_extra("directed_refused_at_integration_cap", st.refused_at_cap);
+                rep.add_extra("directed_integration_position_emptied_by_liquidation", st.emptied);
                 rep.set_max("max_integration_positions_in_one_account", st.max_integration as f64);
                 if st.max_integration >= 8 && st.refused_at_cap > 0 {
                     rep.nontrivial_case(&json!({"t": c.tags, "o": c.order, "n": c.n_collateral}));
